@@ -55,12 +55,21 @@ theorem C15_order_mult {ρ} (reqs : List Char → Option ρ) (shoots : List (Lis
   · exact expandItems_req reqs items [] steps (by simp) he
 
 /-- **the accepted descriptions, exactly**: a list whose items all parse is decoded successfully iff every request
-name is defined and every `sleep` item has an executed step before it (otherwise: an error, never a panic). -/
+name is defined, every `sleep` item has an executed step before it and no item lets the scenario grow beyond
+`config.MaxScenarioRequests` (2^20) steps (otherwise: an error, never a panic, never an allocation without bound —
+repair 1eaf10a). -/
 theorem C15_order_mult_total {ρ} (reqs : List Char → Option ρ) (shoots : List (List Char)) (items : List Item)
     (hp : parseAll shoots = some items) :
-    (∃ steps, expand reqs shoots [] = .ok steps) ↔ domOK reqs items false = true := by
+    (∃ steps, expand reqs shoots [] = .ok steps) ↔ domOK reqs items 0 = true := by
   rw [expand_of_parse reqs shoots items [] hp]
   exact expandItems_ok_iff reqs items []
+
+/-- an accepted request list expands to at most `config.MaxScenarioRequests` steps, whatever the repeat counts -/
+theorem C15_order_mult_bounded {ρ} (reqs : List Char → Option ρ) (shoots : List (List Char)) (steps : List (Step ρ))
+    (h : expand reqs shoots [] = .ok steps) : (steps.length : Int) ≤ maxScenarioRequests := by
+  obtain ⟨items, hp⟩ := parse_of_expand reqs shoots [] steps h
+  rw [expand_of_parse reqs shoots items [] hp] at h
+  exact expandItems_length reqs items [] steps (by simp [maxScenarioRequests]) h
 
 /-- an item that does not parse, an unknown name or a leading `sleep` is an error of the decoder (no panic) -/
 theorem C15_order_no_panic {ρ} (reqs : List Char → Option ρ) (shoots : List (List Char)) (acc : List (Step ρ)) (p : String) :
@@ -77,7 +86,9 @@ theorem C15_order_no_panic {ρ} (reqs : List Char → Option ρ) (shoots : List 
         unfold expandItem
         split
         · split <;> simp
-        · split <;> simp
+        · split
+          · simp
+          · dsimp only; split <;> simp
       split
       · exact ih _
       · simp
@@ -792,11 +803,18 @@ example : (expand exReqs exShoots []).bind (fun s => .ok (s.map proj)) =
          ("order_req".toList, 100), ("order_req".toList, 100)] := by decide
 
 -- C15_order_mult_total: both sides of the iff occur — a leading sleep / an unknown name is refused with an error
-example : (parseAll exShoots).map (domOK exReqs · false) = some true := by decide
+example : (parseAll exShoots).map (domOK exReqs · 0) = some true := by decide
 example : expand exReqs ["sleep(3)".toList, "auth_req".toList] [] = .err "sleepfirst" ∧
-    (parseAll ["sleep(3)".toList, "auth_req".toList]).map (domOK exReqs · false) = some false := by decide
+    (parseAll ["sleep(3)".toList, "auth_req".toList]).map (domOK exReqs · 0) = some false := by decide
 example : expand exReqs ["auth_req(0)".toList, "sleep".toList] [] = .err "sleepfirst" ∧
     expand exReqs ["nosuch(2)".toList] [] = .err "notfound" ∧ expand exReqs ["auth_req(x)".toList] [] = .err "parse" := by decide
+
+-- repair 1eaf10a: a repeat count that lets the scenario grow beyond 2^20 steps is refused (`decide` on the refusal only:
+-- nothing is expanded), also when the total is reached by several items; 2^20 itself is the domain's edge
+example : expand exReqs ["auth_req(1048577)".toList] [] = .err "toomany" ∧
+    expand exReqs ["auth_req(3)".toList, "list_req(1048574)".toList] [] = .err "toomany" ∧
+    (parseAll ["auth_req(3)".toList, "list_req(1048574)".toList]).map (domOK exReqs · 0) = some false ∧
+    (parseAll ["auth_req(3)".toList, "list_req(1048573)".toList]).map (domOK exReqs · 0) = some true := by decide
 
 /-- text of a leaf of a variable tree -/
 def strAt : Val → List String → Option String
